@@ -147,6 +147,23 @@ class Gen:
             if "same_as" not in frame and topic == XSCTX and ctx == ZERO:
                 self.ctx_regs.append(i)
 
+    def op_move_head(self):
+        """a stored frame is imported again under another context (same id, same topic), then a head:K frame is appended to
+        the (context, topic) it used to be in and the collector runs: the moved frame is no business of that collection"""
+        cands = [k for k in self.frames if self.ops[k].get("op") == "append" and self.ops[k].get("ctx") != NEVER
+                 and self.ops[k].get("topic") != hx(XSCTX)]
+        if not cands or not self.ctx_regs:
+            return self.op_append()
+        k = self.r.choice(cands)
+        src = self.ops[k]
+        others = [c for c in [ZERO] + [{"ref": c} for c in self.ctx_regs] if c != src["ctx"]]
+        i = self.add({"op": "import", "frame": {"same_as": k, "ctx": self.r.choice(others)}})
+        self.frames.append(i)
+        j = self.add({"op": "append", "topic": src["topic"], "ctx": src["ctx"], "ttl": self.r.choice(["head:1", "head:1", "head:2"]),
+                      "meta": None, "hash": None})
+        self.frames.append(j)
+        self.add({"op": self.r.choice(["drain", "gc"])})
+
     def op_clock(self):
         if self.time_frames and self.r.random() < 0.8:
             k, n = self.r.choice(self.time_frames)
@@ -222,6 +239,10 @@ PROFILES = {
     # contexts: registration, removal of registrations, reopen
     "contexts": {"ops": {"append": 30, "register": 8, "remove": 10, "import": 8, "reopen": 8, "read": 8,
                          "head": 4, "drain": 2}, "nctx": [2, 3, 4], "len": (6, 25)},
+    # imports over existing ids (another context, another topic) followed by head:N appends and the collector: what the
+    # collector takes must be frames of exactly that context and topic (C08)
+    "import_gc": {"ops": {"append": 30, "import": 20, "move_head": 8, "remove": 3, "read": 6, "head": 4, "gc": 8, "drain": 8, "reopen": 1},
+                  "ntopics": 3, "ttl_w": (0.2, 0.1, 0.0, 0.1, 0.6), "len": (8, 30), "p_nul": 0.0},
     # import / export
     "import": {"ops": {"append": 10, "import": 40, "remove": 6, "read": 10, "head": 8, "get": 6, "reopen": 3,
                        "gc": 2, "drain": 2}, "len": (6, 30)},
@@ -522,6 +543,7 @@ def api_oracle(trace):
     prev = None
     last_assigned = None
     imported = set()     # ids that came in by import so far: a wrong answer about one of them speaks about C20 too
+    head_tasks, expired_seen = {}, set()
 
     def c20(props, *frames_or_ids):
         ids = {(x.get("id") if isinstance(x, dict) else x) for x in frames_or_ids if x is not None}
@@ -544,11 +566,33 @@ def api_oracle(trace):
             if last_assigned is not None and a <= last_assigned:
                 fails.append({"i": i, "why": "append ids not strictly increasing", "props": ["C01", "C02"]})
             last_assigned = a
+        if k == "open":
+            head_tasks, expired_seen = {}, set()     # the collector's queue is in memory: a restart empties it
         if pre is None:
             continue
         frames = [canon_frame(f) for _, f in pre["stream"]]
         if any("undecodable" in f for f in frames):
             continue
+        # C08, on the stored frames alone: whatever the collector takes away was asked for - a head:K append to exactly that
+        # context and topic that leaves the frame outside the K newest, or a read that came across the frame with its time:N elapsed
+        if k == "append" and isinstance(obs.get("ok"), dict) and str(obs["ok"].get("ttl") or "").startswith("head:"):
+            key = (obs["ok"]["ctx"], obs["ok"]["topic"])
+            kk = int(obs["ok"]["ttl"][5:])
+            head_tasks[key] = min(kk, head_tasks.get(key, kk))
+        if k in ("read", "read_sync"):
+            expired_seen |= {f["id"] for f in frames if isinstance(f, dict) and ttl_expired(f, now)}
+        if k in ("gc", "drain") and e.get("dump") is not None:
+            after = {f["id"] for _, f in e["dump"]["stream"] if isinstance(f, dict) and "id" in f}
+            for f in frames:
+                if not isinstance(f, dict) or "id" not in f or f["id"] in after or f["id"] in expired_seen:
+                    continue
+                kk = head_tasks.get((f["ctx"], f["topic"]))
+                newer = sum(1 for g in frames if isinstance(g, dict) and g.get("ctx") == f["ctx"] and g.get("topic") == f["topic"]
+                            and int(g["id"], 16) > int(f["id"], 16))
+                if kk is None or newer < kk:
+                    props = ["C08"] + (["C06"] if kk is None and any(c == f["ctx"] or t == f["topic"] for c, t in head_tasks) else [])
+                    fails.append({"i": i, "why": "the collector removed a frame nothing had asked it to remove", "frame": f,
+                                  "head_tasks": [[c[-6:], t, n] for (c, t), n in head_tasks.items()], "props": c20(props, f)})
         if k == "append" and ("ok" in obs or obs.get("err") in ("invalid-context", "ctx-frame-not-zero", "nul-in-topic")):
             tb = bytes.fromhex(op["topic"])
             registered = op["ctx"] == ZERO or any(
